@@ -127,6 +127,11 @@ def c19_case(seed, index):
             case = formats.GEN[fmt](wr, small=small)
     fr = st.rng("faults")
     plan, kinds = faults.gen_plan(fr, case)
+    if fr.random() < 0.03:
+        # wrong format altogether: a perfectly valid file, of another format
+        other = fr.choice([f for f in formats.FORMATS if formats.TOOL_OF[f] != case.tool])
+        oc = formats.GEN[other](fr, small=True)
+        plan = [{"kind": "replace", "data_b64": b64(oc.data), "from_format": other}] + plan[:1]
     er = st.rng("env")
     env = draw_env(er, case.tool, force_stdin=any(f["kind"] == "pipe_eof" for f in plan))
     return case, plan, env
